@@ -217,6 +217,34 @@ theorem connected_only_when_done (cfg : Cfg) (script : List Ev) (e : Ev) :
   · exact ⟨by omega, fun h1 => by omega⟩
   · exact ⟨by omega, fun _ => ⟨h.2.1, h.2.2.1, h.2.2.2, isConnected_of _ h.2.2.2 h.2.2.1⟩⟩
 
+/-- **`connected` at most once per connection — every history of a server that sends no features into an established
+session (`noFeaturesInSession`, the only conformance hypothesis).**  Scan everything the client did, in order (`alt false`):
+`connected` is never reported while a session is already reported open, where only `disconnected` closes a session.  By
+`disconnected_only_when_socket_gone` a `disconnected` is reported only by a step that loses the socket, so two `connected`
+signals always belong to different connections.  (A hostile server that sends features again into a session does get a
+second `connected` on the same connection: `Q_ASSERT(!d->sessionStarted)` is compiled out in release builds.) -/
+theorem connected_at_most_once_per_connection (cfg : Cfg) (script : List Ev)
+    (hconf : Along noFeaturesInSession (init cfg) script) :
+    alt false (run (init cfg) script).2 = true :=
+  run_alt script (init cfg) (by intro h; simp [init] at h) hconf
+
+/-- `disconnected` is only reported by a step after which the socket is not connected and no session is flagged -/
+theorem disconnected_only_when_socket_gone (cfg : Cfg) (script : List Ev) (e : Ev)
+    (h : nD (step (run (init cfg) script).1 e).2 ≠ 0) :
+    (step (run (init cfg) script).1 e).1.conn ≠ .connected ∧
+    (step (run (init cfg) script).1 e).1.sessionStarted = false :=
+  step_disconnected_means_socket_gone _ e h
+
+/-- the hypothesis is necessary: features sent into an established session open it a second time -/
+example : alt false (run (init { plainOk := true })
+    ([.connectToServer, .socketConnected] ++ flowSaslBind ++ [.recv (.features {})])).2 = false := by decide
+
+/-- …and it is met by conforming histories, e.g. session, cut, reconnect, session -/
+example : Along noFeaturesInSession (init { plainOk := true })
+    ([.connectToServer, .socketConnected] ++ flowSaslBind ++ cutAndReconnect ++ flowSaslBind) := by
+  simp [Along, noFeaturesInSession, flowSaslBind, cutAndReconnect]
+  decide
+
 /-! ### what does not hold today -/
 
 /-- **Defect: legacy (XEP-0078) login never completes.**  For every configuration, the conforming pre-1.0 script (header
